@@ -151,6 +151,17 @@ Proof.
   constructor; [|apply IH; assumption]. intros Hin. apply Hni. unfold keys. apply in_map_iff. exists (k, v). split; [reflexivity|assumption].
 Qed.
 
+Lemma keys_filter_nodup (p : text * datatype -> bool) m : NoDup (keys m) -> NoDup (keys (filter p m)).
+Proof.
+  induction m as [|[k v] m IH]; intros Hnd; cbn [filter]; [constructor|]. inversion Hnd as [|? ? Hni Hnd']; subst.
+  destruct (p (k, v)); [|apply IH; assumption]. cbn [keys map fst]. constructor; [|apply IH; assumption].
+  intros Hin. apply Hni. unfold keys in *. apply in_map_iff in Hin. destruct Hin as (x & E & Hin). apply filter_In in Hin.
+  apply in_map_iff. exists x. split; [exact E|apply Hin].
+Qed.
+
+Lemma drop_grouped_keys_nodup has_dw dims fs : NoDup (keys fs) -> NoDup (keys (drop_grouped_tags has_dw dims fs)).
+Proof. intros H. unfold drop_grouped_tags. destruct has_dw; [exact H|apply keys_filter_nodup; exact H]. Qed.
+
 (* two association lists with distinct keys and the same lookups are permutations of one another *)
 Lemma same_lookups_perm a b :
   NoDup (keys a) -> NoDup (keys b) -> (forall k, assoc_text k a = assoc_text k b) -> Permutation a b.
@@ -456,7 +467,15 @@ Proof.
   assert (Etag : forall k, is_tag_field f k = is_tag_field f' k).
   { intros k. unfold is_tag_field. rewrite (perm_same_lookups f f' Hnf Hf k). reflexivity. }
   assert (Efields : wild_columns has_dw (s_dims q) f t = wild_columns has_dw (s_dims q) f' t').
-  { unfold wild_columns. pose proof (perm_nil_iff _ _ Hf) as Hnil. destruct f as [|x f], f' as [|x' f']; try reflexivity.
+  { unfold wild_columns.
+    assert (Hf0 : Permutation (drop_grouped_tags has_dw (s_dims q) f) (drop_grouped_tags has_dw (s_dims q) f'))
+      by (unfold drop_grouped_tags; destruct has_dw; [assumption|apply filter_perm; assumption]).
+    assert (Hnf0 : NoDup (keys (drop_grouped_tags has_dw (s_dims q) f))) by (apply drop_grouped_keys_nodup; assumption).
+    assert (Etag0 : forall k, is_tag_field (drop_grouped_tags has_dw (s_dims q) f) k = is_tag_field (drop_grouped_tags has_dw (s_dims q) f') k).
+    { intros k. unfold is_tag_field. rewrite (perm_same_lookups _ _ Hnf0 Hf0 k). reflexivity. }
+    clear Etag Hf Hnf Hnf0. revert Hf0 Etag0. generalize (drop_grouped_tags has_dw (s_dims q) f) (drop_grouped_tags has_dw (s_dims q) f').
+    clear f f'. intros f f' Hf Etag.
+    unfold wild_columns0. pose proof (perm_nil_iff _ _ Hf) as Hnil. destruct f as [|x f], f' as [|x' f']; try reflexivity.
     - destruct Hnil as [Hn _]. specialize (Hn eq_refl). discriminate.
     - destruct Hnil as [_ Hn]. specialize (Hn eq_refl). discriminate.
     - apply sort_refs_perm. apply Permutation_app; [assumption|]. destruct has_dw; [constructor|]. apply Permutation_map.
@@ -487,17 +506,17 @@ End Invariance.
 (* ---- the column list a wildcard stands for ---- *)
 Definition ref_le := @le (text * datatype) ref_ltb.
 
-Lemma wild_columns_sorted has_dw dims fs ds : StronglySorted ref_le (wild_columns has_dw dims fs ds).
+Lemma wild_columns0_sorted has_dw dims fs ds : StronglySorted ref_le (wild_columns0 has_dw dims fs ds).
 Proof.
-  unfold wild_columns. destruct fs; [constructor|].
+  unfold wild_columns0. destruct fs; [constructor|].
   apply sort_sorted; [exact ref_ltb_asym|intros a b c; apply ref_le_trans].
 Qed.
 
-Lemma wild_columns_in has_dw dims fs ds k t : fs <> [] ->
-  (In (k, t) (wild_columns has_dw dims fs ds) <->
+Lemma wild_columns0_in has_dw dims fs ds k t : fs <> [] ->
+  (In (k, t) (wild_columns0 has_dw dims fs ds) <->
    In (k, t) fs \/ (has_dw = false /\ t = DTag /\ In k ds /\ existsb (is_varref_named k) dims = false /\ is_tag_field fs k = false)).
 Proof.
-  intros Hne. unfold wild_columns. destruct fs as [|x fs]; [congruence|].
+  intros Hne. unfold wild_columns0. destruct fs as [|x fs]; [congruence|].
   set (l := _ ++ _). split.
   - intros Hin. apply (Permutation_in _ (sort_perm ref_ltb l)) in Hin. subst l. apply in_app_iff in Hin.
     destruct Hin as [Hin|Hin]; [left; exact Hin|right]. destruct has_dw; [destruct Hin|].
@@ -510,9 +529,9 @@ Proof.
     unfold ungrouped. apply filter_In. split; [assumption|rewrite Hg; reflexivity].
 Qed.
 
-Lemma wild_columns_nodup has_dw dims fs ds : NoDup (keys fs) -> NoDup ds -> NoDup (wild_columns has_dw dims fs ds).
+Lemma wild_columns0_nodup has_dw dims fs ds : NoDup (keys fs) -> NoDup ds -> NoDup (wild_columns0 has_dw dims fs ds).
 Proof.
-  intros Hfs Hds. unfold wild_columns. destruct fs as [|x fs]; [constructor|]. set (f := x :: fs) in *.
+  intros Hfs Hds. unfold wild_columns0. destruct fs as [|x fs]; [constructor|]. set (f := x :: fs) in *.
   eapply Permutation_NoDup; [apply Permutation_sym, sort_perm|].
   assert (Hnd : NoDup f) by (apply nodup_keys_nodup; assumption).
   destruct has_dw; [rewrite app_nil_r; assumption|].
@@ -527,6 +546,33 @@ Proof.
   - apply NoDup_filter. unfold ungrouped. apply NoDup_filter. assumption.
   - intros k Hin. apply filter_In in Hin. destruct Hin as [_ H]. destruct (is_tag_field f k); cbn in H; congruence.
 Qed.
+
+Lemma drop_grouped_in has_dw dims fs k t :
+  In (k, t) (drop_grouped_tags has_dw dims fs) <->
+  In (k, t) fs /\ (has_dw = true \/ t <> DTag \/ existsb (is_varref_named k) dims = false).
+Proof.
+  unfold drop_grouped_tags. destruct has_dw.
+  - split; [intros H; split; [exact H|left; reflexivity]|intros [H _]; exact H].
+  - rewrite filter_In. cbn [fst snd]. split.
+    + intros [H Hb]. split; [exact H|]. right. destruct (dt_eqb t DTag) eqn:Et; [|left; intros ->; discriminate Et].
+      destruct (existsb (is_varref_named k) dims); [discriminate Hb|right; reflexivity].
+    + intros [H [Hc|[Hc|Hc]]]; [discriminate Hc| |]; (split; [exact H|]).
+      * destruct t; try reflexivity. contradiction Hc; reflexivity.
+      * rewrite Hc, Bool.andb_false_r. reflexivity.
+Qed.
+
+Lemma wild_columns_sorted has_dw dims fs ds : StronglySorted ref_le (wild_columns has_dw dims fs ds).
+Proof. apply wild_columns0_sorted. Qed.
+
+Lemma wild_columns_in has_dw dims fs ds k t : drop_grouped_tags has_dw dims fs <> [] ->
+  (In (k, t) (wild_columns has_dw dims fs ds) <->
+   In (k, t) (drop_grouped_tags has_dw dims fs) \/
+   (has_dw = false /\ t = DTag /\ In k ds /\ existsb (is_varref_named k) dims = false /\
+    is_tag_field (drop_grouped_tags has_dw dims fs) k = false)).
+Proof. apply wild_columns0_in. Qed.
+
+Lemma wild_columns_nodup has_dw dims fs ds : NoDup (keys fs) -> NoDup ds -> NoDup (wild_columns has_dw dims fs ds).
+Proof. intros Hfs Hds. apply wild_columns0_nodup; [apply drop_grouped_keys_nodup; exact Hfs|exact Hds]. Qed.
 
 (* ---- what FieldDimensions computes over measurements: per name the best-ranked type, and the union of the tag keys ---- *)
 Lemma field_dimensions_measurements orc mt fd (F : measurement -> list (text * datatype)) (T : measurement -> list text) ms :
